@@ -15,6 +15,9 @@ Vocabulary (definitions in Spec/TextSpec.lean, Lemmas/TextLemmas.lean, Lemmas/Te
   `sepOk`, `sepOkRat`     admissible separators: non-empty, not starting with a digit (not looking like a denominator)
   `RepOk R rep`           `rep` is a representative the ring prints: `[0,p)`, balanced `[p/2-p+1, p/2]`, any integer for ZRing
   `startsFloatish rest`   `rest` starts with `.`, `e` or `E` (would continue a floating literal; excluded for `operator>>(double&)`)
+  `polyWrite x R`         `Poly1Dom::write` on the coefficient vector `R` as stored (`polyNorm` = `setdegree`, `polyShow` = the body)
+  `parsePoly x t`         reference parser (Spec/TextSpec.lean) of the infix form for the indeterminate name `x`; the library has none
+  `nameOk x`              the name is non-empty and does not start with a digit or `(`
 Only property theorems live in this file; helper lemmas are in Lemmas/Text*.lean.
 -/
 import GivaroModel.Model.Text
@@ -22,6 +25,7 @@ import GivaroModel.Spec.TextSpec
 import GivaroModel.Lemmas.TextLemmas
 import GivaroModel.Lemmas.TextRecInt
 import GivaroModel.Lemmas.TextAux
+import GivaroModel.Lemmas.TextPoly
 namespace Givaro.Props.C19
 open Givaro.Model.Text Givaro.Spec.Text Givaro.Lemmas.Text
 
@@ -281,7 +285,7 @@ theorem element_round_trip_gmp (R : RingIO) (hR : R.reader = .gmp) (rep : Int) (
   have hx : ¬ (R.exact ≠ 0 ∧ rep.natAbs > 2 ^ R.exact) := by omega
   simp [elemRead, hR, elemShow, int_round_trip rep 0 rest h, initNorm_rep R rep hrep, hx]
 
-example : RepOk ⟨.gmp, false, 101, 0⟩ 100 := Or.inr ⟨by decide, by decide⟩
+example : RepOk ⟨.gmp, false, 101, 0, 0⟩ 100 := Or.inr ⟨by decide, by decide⟩
 
 /-! native readers -/
 
@@ -292,9 +296,9 @@ theorem element_round_trip_sint (R : RingIO) (w : Nat) (hw : 0 < w) (hR : R.read
     (rest : List Char) (h : startsWithDigit rest = false) :
     elemRead R (IStream.ofList (elemShow rep ++ rest)) = some (rep, after rest) := by
   have hx : ¬ (R.exact ≠ 0 ∧ rep.natAbs > 2 ^ R.exact) := by omega
-  simp [elemRead, hR, elemShow, nativeRead_showInt w hw rep 0 hlo hhi rest h, initNorm_rep R rep hrep, hx]
+  simp [elemRead, hR, elemShow, nativeRead_showInt w hw rep R.uninit hlo hhi rest h, initNorm_rep R rep hrep, hx]
 
-example : RepOk ⟨.sint 32, true, 101, 0⟩ (-50) := Or.inr ⟨by decide, by decide⟩
+example : RepOk ⟨.sint 32, true, 101, 0, 0⟩ (-50) := Or.inr ⟨by decide, by decide⟩
 
 /-- `ModularBalanced<float|double>` (writer since fixes/C19_3.patch prints the representative as an integer) -/
 theorem element_round_trip_flt (R : RingIO) (m : Nat) (hR : R.reader = .flt m) (rep : Int) (hrep : RepOk R rep)
@@ -343,8 +347,8 @@ theorem element_round_trip_flt (R : RingIO) (m : Nat) (hR : R.reader = .flt m) (
 
 /-! ### strings -/
 
-/-- `Integer(std::string(n).c_str()) == n` for every integer -/
-theorem int_string_round_trip (n : Int) : intOfString (intToString n) = n := by
+/-- `mpz_set_str` accepts the printed form of every integer and returns it -/
+theorem mpzSetStr_showInt (n : Int) : mpzSetStr (showInt n) = some n := by
   obtain ⟨hne, hall, hval⟩ := decDigits_spec n.natAbs
   cases hd : decDigits n.natAbs with
   | nil => exact absurd hd hne
@@ -357,17 +361,21 @@ theorem int_string_round_trip (n : Int) : intOfString (intToString n) = n := by
     have hv : List.foldl (fun acc c => acc * 10 + digitVal c) 0 (d0 :: ds) = n.natAbs := hval
     by_cases hn : n < 0
     · have hsm : isSpace '-' = false := by decide
-      have : intToString n = '-' :: d0 :: ds := by simp [intToString, showInt, hn, hd]
+      have : showInt n = '-' :: d0 :: ds := by simp [showInt, hn, hd]
       rw [this]
-      simp only [intOfString, mpzSetStr, List.dropWhile, hsm, List.head?_cons, decide_true, ↓reduceIte, List.drop_succ_cons,
+      simp only [mpzSetStr, List.dropWhile, hsm, List.head?_cons, decide_true, ↓reduceIte, List.drop_succ_cons,
         List.drop_zero, h0, Bool.not_true, Bool.false_eq_true, hf, hall', hv]
       simp; omega
-    · have : intToString n = d0 :: ds := by simp [intToString, showInt, hn, hd]
+    · have : showInt n = d0 :: ds := by simp [showInt, hn, hd]
       have hm' : ¬ (some d0 = some '-') := by simpa using hm
       rw [this]
-      simp only [intOfString, mpzSetStr, List.dropWhile, hsp, List.head?_cons, hm', decide_false, Bool.false_eq_true, ↓reduceIte,
+      simp only [mpzSetStr, List.dropWhile, hsp, List.head?_cons, hm', decide_false, Bool.false_eq_true, ↓reduceIte,
         h0, Bool.not_true, hf, hall', hv]
       simp; omega
+
+/-- `Integer(std::string(n).c_str()) == n` for every integer -/
+theorem int_string_round_trip (n : Int) : intOfString (intToString n) = n := by
+  simp [intOfString, intToString, mpzSetStr_showInt]
 
 /-- `Rational(const char*)` on the printed form of every canonical rational -/
 theorem rat_string_round_trip (n d : Int) (hq : Canonical (n, d)) : ratOfString (showRat (n, d)) = some (n, d) := by
@@ -383,10 +391,10 @@ theorem poly_round_trip_counterexample :
     ¬ ∀ (R : RingIO) (x : List Char) (P : List Int), polyNorm P = P → (∀ c ∈ P, RepOk R c) →
         ∃ s, polyRead R (IStream.ofList (polyShow x P)) = some (P, s) ∧ s.fail = false := by
   intro hall
-  obtain ⟨s, hs, _⟩ := hall ⟨.gmp, false, 101, 0⟩ ['X'] [1, 1] (by decide)
+  obtain ⟨s, hs, _⟩ := hall ⟨.gmp, false, 101, 0, 0⟩ ['X'] [1, 1] (by decide)
     (by intro c hc; simp at hc; subst hc; exact Or.inr ⟨by decide, by decide⟩)
   revert hs
-  simp only [show polyRead ⟨.gmp, false, 101, 0⟩ (IStream.ofList (polyShow ['X'] [1, 1]))
+  simp only [show polyRead ⟨.gmp, false, 101, 0, 0⟩ (IStream.ofList (polyShow ['X'] [1, 1]))
       = some ([0, 0], ⟨" X".toList, true, false⟩) from by decide]
   intro hs
   have h2 : ([0, 0] : List Int) = [1, 1] := congrArg Prod.fst (Option.some.inj hs)
@@ -402,7 +410,7 @@ theorem poly_read_rejects_written_form (R : RingIO) (x : List Char) (c0 : Int) (
   obtain ⟨l, hl⟩ := hshow
   have hsp : isSpace '(' = false := by decide
   have hdg : isDigit '(' = false := by decide
-  have hd : nativeRead true 64 0 (IStream.ofList ('(' :: l)) = (0, ⟨'(' :: l, true, false⟩) := by
+  have hd : nativeRead true 64 R.uninit (IStream.ofList ('(' :: l)) = (0, ⟨'(' :: l, true, false⟩) := by
     simp [nativeRead, sentryWs, IStream.ofList, IStream.good, List.dropWhile, hsp, numGetInt, List.takeWhile, hdg]
   rw [hl] at hr
   simp only [polyRead, hd] at hr
@@ -492,5 +500,103 @@ theorem rat_sequence_round_trip (sep : List Char) (hsep : sepOkRat sep = true) (
       rw [e1, e2]
 
 example : sepOkRat " ; ".toList = true := by decide
+
+/-! ### polynomials: the write half (well-formed, determined by the value, injective on values) -/
+
+/-- `Poly1Dom::write` prints the degree-normalised copy: the text is the body applied to `setdegree` of the stored vector
+    (`0` for the empty vector and for every all-zero vector) -/
+theorem poly_write_eq (x : List Char) (R : List Int) : polyWrite x R = polyShow x (polyNorm R) := by
+  cases R with
+  | nil => rfl
+  | cons c cs =>
+    simp only [polyWrite]
+    split
+    · rename_i h; rw [h]; rfl
+    · rename_i c0 cs0 h; rw [h]
+
+/-- the written text is a function of the *normalised* polynomial only: trailing zero coefficients of the stored vector
+    (a vector filled by hand, the result of the library's own `read` of `2 101 1 1` over Z/101, …) never show -/
+theorem poly_write_normalised (x : List Char) (R : List Int) : polyWrite x R = polyWrite x (polyNorm R) := by
+  rw [poly_write_eq, poly_write_eq, polyNorm_idem]
+
+/-- … and it is well-formed: for every stored coefficient vector (any integers: all rings' representatives, any length,
+    any number of trailing zeros) and every indeterminate name not starting with a digit or `(`, the reference parser of
+    the infix form reads the written text back to exactly the normalised polynomial -/
+theorem poly_write_parse (x : List Char) (hx : nameOk x = true) (R : List Int) :
+    parsePoly x (polyWrite x R) = some (polyNorm R) := by
+  rw [poly_write_eq]
+  exact parsePoly_polyShow x hx (polyNorm R) (polyNorm_Norm R)
+
+example : nameOk "Y1".toList = true := by decide
+
+/-- hence `write` is injective on values: equal texts come from equal polynomials -/
+theorem poly_write_injective (x : List Char) (hx : nameOk x = true) (P Q : List Int)
+    (h : polyWrite x P = polyWrite x Q) : polyNorm P = polyNorm Q := by
+  have hp := poly_write_parse x hx P
+  rw [h, poly_write_parse x hx Q] at hp
+  exact (Option.some.inj hp).symm
+
+/-- the restriction on the name is needed: with the indeterminate called `1`, the polynomials `1` and `X` are written alike -/
+theorem poly_write_name_hypothesis_needed :
+    ¬ ∀ (x : List Char) (P Q : List Int), x ≠ [] → polyWrite x P = polyWrite x Q → polyNorm P = polyNorm Q := by
+  intro h
+  have := h ['1'] [1] [0, 1] (by simp) (by decide)
+  revert this
+  decide
+
+/-! ### RecInt string constructors -/
+
+/-- `ruint<K>(s)` on the printed form of every value of the type -/
+theorem recint_string_round_trip (K : Nat) (hK : 6 ≤ K) (a : Nat) (ha : a < 2 ^ 2 ^ K) :
+    ruintOfString K (ruintShow K a) = some a := by
+  have hs : ruintShow K a = showInt (a : Int) := by
+    rw [showInt_natCast]; simp only [ruintShow, ruintShowGen]; split
+    · rfl
+    · exact ruShow_eq a
+  simp [ruintOfString, mpzClassOfString, hs, mpzSetStr_showInt, mpzToRuint_nat K hK a ha]
+
+/-- `rint<K>(s)` on the printed form of every value of the type, negative ones and `-2^(2^K-1)` included
+    (holds since /repo 52dbea7: `mpz_to_ruint` stores a negative number as its two's complement) -/
+theorem recint_signed_string_round_trip (K : Nat) (hK : 6 ≤ K) (a : Int) (hlo : -(2 ^ (2 ^ K - 1) : Nat) ≤ a)
+    (hhi : a < (2 ^ (2 ^ K - 1) : Nat)) :
+    rintOfString K (rintShow K a) = some a := by
+  have hpos : 0 < 2 ^ K := Nat.pow_pos (by decide)
+  have hN : 2 ^ 2 ^ K = 2 * 2 ^ (2 ^ K - 1) := by
+    rw [← Nat.pow_succ']; congr 1; omega
+  -- the printed form is the decimal form (read off the stream round trip)
+  have hs : rintShow K a = showInt a := by
+    have hshow : ∀ x, ruShowGen false x = decDigits x := ruShow_eq
+    generalize hH : 2 ^ (2 ^ K - 1) = H at hlo hhi hN
+    by_cases hn : a < 0
+    · obtain ⟨m, rfl⟩ : ∃ m : Nat, a = -(m : Int) := ⟨a.natAbs, by omega⟩
+      have hm0 : 0 < m := by omega
+      have hpat : toPattern K (m : Int) = m := by
+        simp only [toPattern, hN]
+        rw [Int.emod_eq_of_lt (by omega) (by push_cast; omega)]
+        omega
+      simp [rintShow, rintShowGen, hm0, hpat, showInt, hshow]
+    · obtain ⟨m, rfl⟩ : ∃ m : Nat, a = (m : Int) := ⟨a.natAbs, by omega⟩
+      have hpat : toPattern K (m : Int) = m := by
+        simp only [toPattern, hN]
+        rw [Int.emod_eq_of_lt (by omega) (by push_cast; omega)]
+        omega
+      simp [rintShow, rintShowGen, hn, hpat, showInt, hshow]
+  have hmod := mpzToRuint_int K hK a
+  simp only [rintOfString, ruintOfString, mpzClassOfString, hs, mpzSetStr_showInt, Option.map_some, toSigned]
+  generalize hH : 2 ^ (2 ^ K - 1) = H at hlo hhi hN
+  rw [hN] at hmod ⊢
+  by_cases hn : a < 0
+  · have e : a % ((2 * H : Nat) : Int) = a + ((2 * H : Nat) : Int) := by
+      rw [← Int.add_mul_emod_self_left a ((2 * H : Nat) : Int) 1, Int.mul_one]
+      exact Int.emod_eq_of_lt (by push_cast; omega) (by push_cast; omega)
+    rw [e] at hmod
+    have : ¬ (mpzToRuint K a < H) := by push_cast at hmod; omega
+    simp only [this, ↓reduceIte]
+    congr 1; push_cast at hmod ⊢; omega
+  · have e : a % ((2 * H : Nat) : Int) = a := Int.emod_eq_of_lt (by omega) (by push_cast; omega)
+    rw [e] at hmod
+    have : mpzToRuint K a < H := by omega
+    simp only [this, ↓reduceIte]
+    congr 1
 
 end Givaro.Props.C19
